@@ -254,6 +254,9 @@ def compute_features_3d(sigs, fs, f_range, compute_features_kwargs=None, axis=0,
 
     n_jobs = cpu_count() if n_jobs == -1 else n_jobs
 
+    # An axis given as a numpy integer (e.g. taken from an array) means the same as the int
+    axis = int(axis) if isinstance(axis, np.integer) else axis
+
     # Convert list of kwargs to array to check dimensions
     kwargs = deepcopy(compute_features_kwargs)
     kwargs = np.array(kwargs) if isinstance(kwargs, list) else kwargs
